@@ -58,7 +58,7 @@ def run(tier):
         r = core.tlc("MC_GitRepo", cfg(*bnd, rewrite=rewrite), "c02-mc", workers=1 if tier == "quick" else 12, timeout=14400)
         core.log("C02: TLC MC_GitRepo %s%s: %d states, %d distinct repositories, %.1fs"
                  % (bnd[:3], " with reset --hard / commit --amend / tag -f" if rewrite else "", r["states"], r["distinct"], r["wall"]))
-        rp = core.zv(["replay", "gitrepo", r["out_path"], strd], timeout=28800)
+        rp = core.zv(["replay", "gitrepo", r["out_path"], strd, 1 if tier == "quick" else 3], timeout=28800)
         core.log("  replayed %d repositories into real git, %d observations (%d with merges / several tags / unreachable tags / detached / rewritten history), %d mismatches"
                  % (rp["extra"]["repositories"], rp["evaluations"], rp["nontrivial"], rp["mismatch_count"]))
         if rp["evaluations"] == 0:
@@ -108,8 +108,8 @@ def run(tier):
                samples=rep["samples"][:4], evaluations=rep["evaluations"] + tev, distinct_nontrivial=rep["nontrivial"],
                rule="Gen: every distinct repository reachable with <= %d commits and <= %d operations over main+%s and the first "
                     "%d tag names of {v1.0.0, 1.0.0a1, main (also a branch name), v2.0.0-rc.1, 1.0.0, v1.1.0} (every %d-th uninteresting state; all "
-                    "states with a merge commit, two tags on a commit, a tag unreachable from HEAD or a detached HEAD), each "
-                    "observed 7 times (3 formats clean + 4 work-tree kinds). distinct_nontrivial = those interesting states. "
+                    "states (thorough: every third) with a merge commit, two tags on a commit, a tag unreachable from HEAD, a detached HEAD or rewritten history), each "
+                    "observed 10 times (3 formats clean, 4 work-tree kinds, from a sub-directory, with -C on a sub-directory, from a linked work tree). distinct_nontrivial = those interesting states. "
                     "A second exploration adds reset --hard, commit --amend and tag -f (<= %d commits, <= %d operations, %d tag names, every %d-th "
                     "uninteresting state). Trace: %d random sessions (the same operations)." % (bounds[0], bounds[1], bounds[3], bounds[2], stride, rbounds[0], rbounds[1], rbounds[2], rstride, sessions),
                exhaustive=(stride == 1), repositories=rep["extra"]["repositories"], recorded_events=tev)
